@@ -1,3 +1,4 @@
+import NgoVerif.Generated.Tables
 import NgoVerif.Model.Projection
 import NgoVerif.Meta.Fold
 import NgoVerif.Props.C07
@@ -202,5 +203,11 @@ interface), of which the two theorems above are the syntactic instance -/
 theorem C16_schema_sound {α E K : Type} (S : HT.SplitData α E K) (h : S.WF) (hg : S.Glue) (T : HT.Interp α)
     (hT : HT.Stable S.orig T) : HT.Stable (HT.Union S.folded (S.defs h).rules) (HT.ext (S.defs h) T) :=
   S.split_sound h hg T hT
+
+/-- `api.optimize` (read from the source on every run) constructs this pass with the current program and the caller's
+own declaration lists, under the parameter names the class declares, and replaces the current program by its result -/
+theorem C16_wiring :
+    Tables.API_ARGS.lookup "projection" = some (["input_", "input_predicates"], "input_", "input_") ∧
+    Tables.CTOR_PARAMS.lookup "projection" = some ["prg", "input_predicates"] := by decide
 
 end NgoVerif
